@@ -46,6 +46,13 @@ def main():
             if shown[k] <= int(os.environ.get("DEV_SHOW", "3")):
                 print("  ", f["prop"], f.get("class", "violation"), f["id"], f["what"][:int(os.environ.get("DEV_LEN", "600"))])
         print("trace events %d, viol %s" % (tv["events"], tv["viol"][:5]))
+        if os.environ.get("DEV_CONFORM"):
+            import time
+            t0 = time.time()
+            cf = f1.conform(v, rec, sc, "dev")
+            print("conformance: %d events, %d runs, %d rejected, %.1fs" % (cf["events"], cf["runs"], len(cf["rejected"]), time.time() - t0))
+            for x in cf["rejected"][:int(os.environ.get("DEV_SHOW", "3")) * 4]:
+                print("   REJECT", x)
     else:
         tokens = os.path.join(sc, "tokens.txt")
         c.tlc("RouterMC", "Router_tokens.cfg", workers=1, out_file=tokens, timeout=300)
